@@ -4,6 +4,8 @@ Deciding monitors (boundary): post-conditions on model_description / Parser.pars
   nonsentence-rejected   reference says "not a sentence"  =>  model_description raises
   ast-equals-reference   real AST (Grouping erased) == reference AST
   ws-invariance / paren-invariance / fp-invariance   metamorphic shadows of the real code
+  no-token-ignored       in an accepted formula without a formula-level `-` / `0`, renaming one variable or level
+                         to an unused name changes the model (every one in turn for the DIRECTED formulas)
 White-box (secondary): scanner span conservation, parser cursor/token conservation.
 """
 import collections
@@ -16,7 +18,7 @@ from workloads import sentences as S
 
 PROP = "C01"
 DECIDING = ["nonsentence-rejected", "ast-equals-reference", "ws-invariance", "paren-invariance",
-            "fp-invariance"]
+            "fp-invariance", "no-token-ignored"]
 
 
 def spec(tier):
